@@ -3,8 +3,6 @@
 package cl
 
 import (
-	"math/big"
-
 	"github.com/ohler55/slip"
 )
 
@@ -41,41 +39,13 @@ type Min struct {
 // Call the function with the arguments provided.
 func (f *Min) Call(s *slip.Scope, args slip.List, depth int) slip.Object {
 	slip.CheckArgCount(s, depth, f, args, 1, -1)
-	pos := 0
-	min := args[pos]
+	min := args[0]
 	if _, ok := min.(slip.Real); !ok {
 		slip.TypePanic(s, depth, "reals", min, "real")
 	}
-	pos++
-	for ; pos < len(args); pos++ {
-		arg, mx := slip.NormalizeNumber(args[pos], min)
-		switch ta := arg.(type) {
-		case slip.Fixnum:
-			if mx.(slip.Fixnum) > ta {
-				min = args[pos]
-			}
-		case slip.SingleFloat:
-			if mx.(slip.SingleFloat) > ta {
-				min = args[pos]
-			}
-		case slip.DoubleFloat:
-			if mx.(slip.DoubleFloat) > ta {
-				min = args[pos]
-			}
-		case *slip.LongFloat:
-			if (*big.Float)(mx.(*slip.LongFloat)).Cmp((*big.Float)(ta)) > 0 {
-				min = args[pos]
-			}
-		case *slip.Bignum:
-			if (*big.Int)(mx.(*slip.Bignum)).Cmp((*big.Int)(ta)) > 0 {
-				min = args[pos]
-			}
-		case *slip.Ratio:
-			if (*big.Rat)(mx.(*slip.Ratio)).Cmp((*big.Rat)(ta)) > 0 {
-				min = args[pos]
-			}
-		case slip.Complex:
-			slip.TypePanic(s, depth, "reals", arg, "real")
+	for _, arg := range args[1:] {
+		if compareReals(arg, min) == -1 {
+			min = arg
 		}
 	}
 	return min
